@@ -30,6 +30,19 @@ theorem C12_merge_lookup : ∀ (a b : KVs) (k : Str), a.keys.Nodup →
 
 theorem C12_merge_empty_source (b : KVs) : mergeKVs .nil b = b := by simp [mergeKVs]
 
+/-- `Resolve` merges the URI list AS GIVEN, one entry after the other: no hypothesis on `srcs` — the same source may
+occur any number of times, adjacent or not, and is merged again each time (the resolver must not de-duplicate) -/
+theorem C12_merge_sources_snoc (srcs : List KVs) (s : KVs) :
+    mergeSources (srcs ++ [s]) = mergeKVs s (mergeSources srcs) := mergeSources_snoc srcs s
+
+/-- … so whatever came before (including an earlier occurrence of the same source and anything merged in between),
+the scalars, lists and nils of the last entry win again -/
+theorem C12_merge_last_source_wins (srcs : List KVs) (s : KVs) (k : Str) (v : Val) (hk : s.keys.Nodup)
+    (hv : s.lookup k = some v) (hm : ∀ m, v ≠ .map m) :
+    (mergeSources (srcs ++ [s])).lookup k = some v := by
+  rw [C12_merge_sources_snoc, C12_merge_lookup s _ k hk, hv]
+  cases v <;> first | rfl | exact absurd rfl (hm _)
+
 theorem C12_merge_sources_empty (srcs : List KVs) : mergeSources (srcs ++ [.nil]) = mergeSources srcs := by
   rw [mergeSources_snoc, C12_merge_empty_source]
 
@@ -322,5 +335,12 @@ theorem C12_leftover_sound (env : Env) : ∀ (s : Str) (k : Str × Str), leftove
         | none => simp only [hk] at h; exact lift (C12_leftover_sound env r k h)
 
 example : leftoverRef (exEnv .fixed) ['a', '$', '{', 'e', 'n', 'v', ':', 'X', '}'] = some (['e', 'n', 'v'], ['X']) := by decide
+
+/-- `[A, B, A]` is not `[A, B]`: the repeated location restores A's scalar -/
+example :
+    let a : KVs := .cons ['s'] (.int 1) .nil
+    let b : KVs := .cons ['s'] (.int 2) .nil
+    (mergeSources [a, b, a]).lookup ['s'] = some (.int 1) ∧ (mergeSources [a, b]).lookup ['s'] = some (.int 2) :=
+  ⟨rfl, rfl⟩
 
 end OtelVerif.C12
